@@ -121,6 +121,15 @@ pub fn directed() -> Vec<(&'static str, Scn)> {
                 "sched": {"explicit": ["c2s:SYN#0:hold1", "c2s:HSACK#0:hold1", "s2c:ACK#0:drop", "c2s:DATA#2:drop",
                     "c2s:DATA#4:hold2", "s2c:WINUPD#0:drop"]}})),
         ),
+        // the first data segment overtakes the handshake ACK and completes the
+        // handshake itself: its payload counts as delivered
+        (
+            "data-completes-handshake",
+            scn(json!({"cfg": {}, "c2s": {"total": 5, "wchunks": [5], "rbufs": [4096]},
+                "s2c": {"total": 0, "write_delay": 100},
+                "sched": {"explicit": ["c2s:HSACK#0:hold2", "c2s:DATA#1:drop", "c2s:DATA#2:drop", "c2s:DATA#3:drop",
+                    "c2s:DATA#4:drop", "c2s:DATA#5:hold2", "s2c:ACK#0:hold2", "s2c:ACK#1:hold2"]}})),
+        ),
     ]
 }
 
